@@ -7,10 +7,11 @@ Ev == Trace[l]
 TInit == AbsInit /\ l = 1
 TNext == /\ l <= Len(Trace)
          /\ l' = l + 1
-         /\ CASE Ev.e = "init"      -> Reset(Ev.n, Ev.ordered)
-              [] Ev.e = "sub"       -> Sub(Ev.task, Ev.kind, Ev.at)
+         /\ CASE Ev.e = "init"      -> Reset(Ev.n, Ev.ordered, Ev.mdMs)
+              [] Ev.e = "sub"       -> Sub(Ev.task, Ev.kind, Ev.at, Ev.t)
               [] Ev.e = "cancelret" -> CancelRet(Ev.task)
-              [] Ev.e = "checked"   -> Checked(Ev.task, Ev.t)
+              [] Ev.e = "unsched"   -> Unsched(Ev.task)
+              [] Ev.e = "checked"   -> Checked(Ev.task, Ev.t, Ev.by)
               [] Ev.e = "begin"     -> Begin(Ev.task, Ev.t)
               [] Ev.e = "end"       -> End(Ev.task)
               [] Ev.e = "final"     -> Final(Ev.t)
